@@ -178,6 +178,13 @@ fn ty_example(
     //  general handling of type definitions
     match &ty.type_def {
         scale_info::TypeDef::Composite(composite) => {
+            // `Cow<T>` is resolved to the type path of `T` by the type generator (there is no
+            // generated `Cow` item), so an example of `Cow<T>` is just an example of `T`.
+            if ty.path.ident().as_deref() == Some("Cow") {
+                if let Some(inner) = ty.type_params.first().and_then(|p| p.ty) {
+                    return transformer.resolve(inner.id);
+                }
+            }
             let struct_path = transformer.resolve_type_path_omit_generics(type_id)?;
             let has_unused_type_params = transformer.has_unused_type_params(ty)?;
 
